@@ -221,10 +221,10 @@ func runGroup(cfg groupCfg) (res groupResult) {
 		}
 	}
 	// always: one observer that comes and goes before any task
-	subscribeTo(pools[rng.Intn(len(pools))].pool.PendingTasksCounter)
+	firstUnsub := pools[rng.Intn(len(pools))].pool.PendingTasksCounter.Subscribe(func(o, nw int) {})
+	res.ObsSubs++
 	churn()
-	obsv[0].unsub()
-	obsv = obsv[1:]
+	firstUnsub()
 	res.ObsUnsubs++
 	check("all pools idle")
 	rounds := 1 + rng.Intn(2)
@@ -561,11 +561,10 @@ func runGroupConcurrent(cfg groupCfg) (res groupResult) {
 			}
 		}
 	}
-	unsubs = append(unsubs, pools[rng.Intn(nP)].pool.Load().PendingTasksCounter.Subscribe(func(o, n int) {}))
+	firstUnsub := pools[rng.Intn(nP)].pool.Load().PendingTasksCounter.Subscribe(func(o, n int) {})
 	res.ObsSubs++
 	churn()
-	unsubs[0]()
-	unsubs = unsubs[1:]
+	firstUnsub()
 	res.ObsUnsubs++
 	check("after concurrent creation and submission")
 	for _, i := range rng.Perm(nP) {
